@@ -180,7 +180,18 @@ def run_t1(modules: list[str], keys: list[str] | None, prop: str, ctx, timeout_m
             res.obligations.append(Obligation(cn, key, "canary (deliberately false clause) must not be provable", merged, canary=True))
         all_held = True
         viol_by_ob = {v["obligation"]: v for v in o["violations"]}
+        spoken = spoken_fields(reg)
         for x in real:
+            # a frame obligation about a field that no contract clause mentions cannot carry any property: a new write to
+            # such a field (e.g. a new bookkeeping attribute) is recorded, not reported
+            if x["status"] != HELD and x["kind"] == "frame":
+                import re as _re
+
+                mm = _re.search(r"frame\[f\.([A-Za-z_0-9]+)", x["name"])
+                if mm and mm.group(1) not in spoken:
+                    res.obligations.append(Obligation(x["name"], key, x["clause"], UNDECIDED, x["backend"], x["ms"], None, "frame of a field no contract speaks about: not a property-carrying obligation"))
+                    res.extra.setdefault("frame_of_unspoken_fields", []).append(x["name"])
+                    continue
             res.obligations.append(Obligation(x["name"], key, x["clause"], x["status"], x["backend"], x["ms"], x["model"], x["reason"]))
             if x["status"] == HELD:
                 continue
@@ -205,6 +216,24 @@ def run_t1(modules: list[str], keys: list[str] | None, prop: str, ctx, timeout_m
     res.extra["t1_fully_discharged"] = fully
     res.extra["t1_baseline_fully_discharged"] = sorted(baseline & set(keys))
     return res
+
+
+def spoken_fields(reg) -> set:
+    """Field names that occur in some contract clause, invariant, modifies entry or spec function of the registry."""
+    import re as _re
+
+    texts = []
+    for c in reg.contracts.values():
+        texts += c.requires + c.ensures + c.canaries + c.modifies + [r.when for r in c.raises]
+        for ls in c.loops.values():
+            texts += ls.invariants + ([ls.decreases] if ls.decreases else [])
+        if c.lemma_src:
+            texts.append(c.lemma_src)
+    texts += [e for _, e in reg.spec_fns.values()]
+    out = set()
+    for t in texts:
+        out |= set(_re.findall(r"\.([A-Za-z_][A-Za-z_0-9]*)", t))
+    return out
 
 
 def replay_t1(modules: list[str], record: dict) -> bool:
